@@ -93,6 +93,7 @@ static void iface_kv(vp_iface *f, const char *k, const char *v) {
     else if (!strcmp(k, "phy")) f->phy = (uint32_t)strtoul(v, NULL, 0);
     else if (!strcmp(k, "fail")) f->failmask = (uint32_t)strtoul(v, NULL, 0);
     else if (!strcmp(k, "conv")) f->name_conv = atoi(v);
+    else if (!strcmp(k, "txdown")) f->txdown = atoi(v);
     else if (!strcmp(k, "rxseed")) { /* handled by caller */ }
     else { fprintf(stderr, "vh: unknown iface key %s\n", k); exit(3); }
 }
